@@ -229,7 +229,7 @@ func init() {
 			"after every commit, per token: genesis holdings + locks of successful block messages = holdings + slashed + unlock queue + delivery queue + amounts of complete-unlock system txs delivered; all amounts >= 0; each unlock queues <= requested and <= holding before it. " +
 			"Non-trivial = every committed block; distinct = (tokens seen, slashed tokens, unlock-queue keys, delivery-queue length).",
 		Assume: []string{"amounts <= 2^96 (documented input bound)", "delivered = system transactions of payloads whose block message succeeded"},
-		Cases:  func(tier string) int { return map[string]int{"quick": 32, "thorough": 320}[tier] },
+		Cases:  func(tier string) int { return map[string]int{"quick": 48, "thorough": 320}[tier] },
 		Run:    func(c *vc.Ctx, i int) { c11History(c, i) },
 	})
 }
